@@ -133,6 +133,8 @@ def named_templates():
                                     dict(frm=K('LEFTCTRL', '$a2'), to=K('$a4'))]
     T['absorbing-output-remapped'] = [dict(frm=K('RIGHTSHIFT', '$a0'), to=K('$a1'), absb=K('RIGHTSHIFT')), dict(frm=K('$a1'), to=K('$a2'))]
     T['absorbing-two-with-remap'] = [dict(frm=K('RIGHTCTRL'), to=K('LEFTSHIFT')), dict(frm=K('LEFTSHIFT', 'RIGHTCTRL', '$a0'), to=K('$a1'), absb=K('LEFTSHIFT', 'RIGHTCTRL'))]
+    T['absorbing-then-layer-key'] = [dict(frm=K('LEFTSHIFT', '$a0'), to=K('$a1'), absb=K('LEFTSHIFT')), dict(frm=K('$a2'), to=K('RIGHTALT')),
+                                     dict(frm=K('LEFTSHIFT', '$a2'), to=K('$a3'))]
     T['swap'] = [dict(frm=K('$a0'), to=K('$a1')), dict(frm=K('$a1'), to=K('$a0'))]
     T['hyper'] = [dict(frm=K('$a0'), to=K('LEFTCTRL', 'LEFTALT')), dict(frm=K('$a0', '$a1'), to=K('LEFTCTRL', 'LEFTALT', '$a2')), dict(frm=K('$a3'), to=K('LEFTSHIFT', '$a4'))]
     T['empty-layout'] = []
@@ -283,6 +285,10 @@ def build(repo, native, tier, seed, log=None):
             dict(frm=K('$a0', '$a2'), to=K('LEFTSHIFT', '$a5')), dict(frm=K('$a0', '$a3'), to=K('$a4'))]
     add_spec('template/three-chords-shared-modifier/N4', deep, 4, max(D, 20), alphabet=K('$a0', '$a1', '$a2', '$a3'),
              note='symbolic template, four keys held, event keys restricted to the four trigger keys', no_foreign=quick)
+    # four keys held, an absorbing chord and a plain chord on another modifier held together
+    two = [dict(frm=K('LEFTSHIFT', '$a0'), to=K('LEFTSHIFT', '$a1'), absb=K('LEFTSHIFT')), dict(frm=K('LEFTCTRL', '$a2'), to=K('LEFTCTRL', '$a3'))]
+    add_spec('template/absorbing-chord+plain-chord/N4', two, 4, max(D, 20), alphabet=K('LEFTSHIFT', 'LEFTCTRL', '$a0', '$a2'),
+             note='symbolic template, four keys held, event keys restricted to the four trigger keys', no_foreign=True)
     nrand = 11 if quick else 60
     for i in range(nrand):
         nm = rng.choice([1, 2, 2]) if quick else rng.choice([1, 2, 2, 3, 3])
